@@ -211,21 +211,94 @@ func ruleFrmVariadic(c *Ctx, r *R) {
 			r.fail("variadic"+sfx, pos, "a variadic path of `call` ("+condStrings(packed)+") does not reach callReady")
 			continue
 		}
-		r.check(linOf(pk.Args[2]).String() == "ft.Args", "variadic-count"+sfx, pos, "the count handed on equals ft.Args for every xArgs",
+		// identities are judged modulo an equation the path has established (nVarArgs == 0)
+		var eqs []*linForm
+		for _, cd := range packed.Conds {
+			if cd.Op == "bin" && cd.Name == "==" && len(cd.Args) == 2 {
+				if k, ok := toLin(cd.Args[1]).isConst(); ok && k == 0 {
+					eqs = append(eqs, toLin(cd.Args[0]))
+				}
+			}
+		}
+		sameLin := func(a, b *linForm) bool {
+			d := a.add(b, -1)
+			if k, ok := d.isConst(); ok && k == 0 {
+				return true
+			}
+			for _, e := range eqs {
+				for _, sgn := range []int64{1, -1} {
+					if k, ok := d.add(e, sgn).isConst(); ok && k == 0 {
+						return true
+					}
+				}
+			}
+			return false
+		}
+		wantCount := newLin()
+		wantCount.Coef["ft.Args"] = 1
+		wantCount.Atom["ft.Args"] = tField(tVar(nil, "ft"), "Args")
+		r.check(linOf(pk.Args[2]).String() == "ft.Args" || sameLin(linOf(pk.Args[2]), wantCount), "variadic-count"+sfx, pos, "the count handed on equals ft.Args for every xArgs",
 			"after packing, `call` hands callReady the count "+linOf(pk.Args[2]).String()+" instead of ft.Args: a well-formed variadic call is rejected or misaligned")
 		// stack: shrinks by nVarArgs and grows by one (the packed slice): stack length when callReady is called
 		lenAt := ""
+		var lenLin *linForm
 		for _, e := range packed.Eff {
 			if e.Kind == "call" && e.Value != nil && e.Value.Name == readyName {
 				break
 			}
 			if e.Kind == "stack" && strings.HasPrefix(e.Value.Name, "len=") {
 				lenAt = strings.TrimPrefix(strings.SplitN(e.Value.Name, " via", 2)[0], "len=")
+				lenLin = parseLinText(lenAt)
 			}
 		}
-		r.check(lenAt == "<+L +ft.Args -xArgs>" || lenAt == "<+ft.Args +L -xArgs>", "variadic-stack"+sfx, pos, "len = L - (xArgs-ft.Args+1) + 1",
+		okLen := lenAt == "<+L +ft.Args -xArgs>" || lenAt == "<+ft.Args +L -xArgs>"
+		if !okLen && lenLin != nil {
+			want := newLin()
+			want.Coef["L"], want.Atom["L"] = 1, tVar(nil, "L")
+			want.Coef["ft.Args"], want.Atom["ft.Args"] = 1, tField(tVar(nil, "ft"), "Args")
+			want.Coef["xArgs"], want.Atom["xArgs"] = -1, tVar(nil, "xArgs")
+			okLen = sameLin(lenLin, want)
+		}
+		r.check(okLen, "variadic-stack"+sfx, pos, "len = L - (xArgs-ft.Args+1) + 1",
 			"a variadic path ("+condStrings(packed)+") leaves the stack at length "+lenAt+" instead of L-xArgs+ft.Args when it reaches callReady: the surplus arguments are not replaced by exactly one slice, or a call that lacks fixed arguments is let through (`7; v := f()` with f(a int, xs ...int) takes 7 as a)")
 	}
+	// no surplus argument: the variadic parameter is the nil slice (xs == nil), not an empty one
+	nilWhenNone := false
+	ast.Inspect(fd.Body, func(n ast.Node) bool {
+		ifs, ok := n.(*ast.IfStmt)
+		if !ok {
+			return true
+		}
+		be, ok := unparen(ifs.Cond).(*ast.BinaryExpr)
+		if !ok || be.Op != token.EQL {
+			return true
+		}
+		if z, ok := c.ConstInt(be.Y); !ok || z != 0 {
+			return true
+		}
+		ast.Inspect(ifs.Body, func(m ast.Node) bool {
+			if cl, ok := m.(*ast.CompositeLit); ok && isNamed(c.TypeOf(cl), "Value") {
+				hasT, hasValue := false, false
+				for _, el := range cl.Elts {
+					if kv, ok := el.(*ast.KeyValueExpr); ok {
+						switch types.ExprString(kv.Key) {
+						case "t":
+							hasT = true
+						case "value":
+							hasValue = true
+						}
+					}
+				}
+				if hasT && !hasValue {
+					nilWhenNone = true
+				}
+			}
+			return true
+		})
+		return true
+	})
+	r.check(nilWhenNone, "variadic-nil", pos, "a variadic call without surplus arguments passes the typed nil slice",
+		"`call` packs an empty, non-nil slice when a variadic function gets no surplus argument: func opts(o ...string) with `if o == nil` takes the wrong branch for opts() (Go passes nil)")
 	// the packed slice is freshly made and filled by copy
 	fresh := false
 	ast.Inspect(fd.Body, func(n ast.Node) bool {
@@ -853,4 +926,39 @@ func (c *Ctx) returnsFreshCopy(fd *ast.FuncDecl) bool {
 		return true
 	})
 	return made != nil && copied && returned
+}
+
+// parseLinText reads the canonical text of a linear form ("<+L +ft.Args -xArgs>", "L", "<+L +1>").
+func parseLinText(s string) *linForm {
+	s = strings.TrimSuffix(strings.TrimPrefix(strings.TrimSpace(s), "<"), ">")
+	l := newLin()
+	for _, tok := range strings.Fields(s) {
+		sign := int64(1)
+		switch {
+		case strings.HasPrefix(tok, "+"):
+			tok = tok[1:]
+		case strings.HasPrefix(tok, "-"):
+			sign, tok = -1, tok[1:]
+		}
+		if tok == "" {
+			return nil
+		}
+		var k int64
+		if _, err := fmt.Sscanf(tok, "%d", &k); err == nil && fmt.Sprint(k) == tok {
+			l.K += sign * k
+			continue
+		}
+		coef := int64(1)
+		name := tok
+		if i := strings.Index(tok, "*"); i > 0 {
+			if _, err := fmt.Sscanf(tok[:i], "%d", &coef); err == nil {
+				name = tok[i+1:]
+			}
+		}
+		l.Coef[name] += sign * coef
+		if l.Atom[name] == nil {
+			l.Atom[name] = tVar(nil, name)
+		}
+	}
+	return l
 }
